@@ -289,8 +289,7 @@ def rule_DELEG(ctx, R):
 COLLS = ("collection::BoxedLockCollection", "collection::RefLockCollection",
          "collection::OwnedLockCollection", "collection::RetryingLockCollection")
 SORTING = ("collection::BoxedLockCollection", "collection::RefLockCollection")
-SORT_FNS = ("std::slice::<impl [T]>::sort_by_key", "std::slice::<impl [T]>::sort_unstable_by_key",
-            "std::slice::<impl [T]>::sort_by_cached_key")
+SORT_NAMES = ("sort_by_key", "sort_unstable_by_key", "sort_by_cached_key")
 ITER_OK = ("std::iter::IntoIterator::into_iter", "std::iter::Iterator::next")
 
 
@@ -455,7 +454,7 @@ def rule_E2(ctx, R):
                     cand = None
                     if e["k"] == "PRIM" and (e["def"].startswith("collection::utils::ordered_")):
                         cand = e["argv"][0]
-                    elif e["k"] == "CALL" and e.get("base") == ITER_OK[0]:
+                    elif e["k"] == "CALL" and (e.get("base") == ITER_OK[0] or e["def"].split("::")[-1] == "for_each"):
                         cand = e["argv"][0]
                     elif e["k"] == "CALL" and e["def"].endswith("::is_empty"):
                         cand = e["argv"][0]
@@ -497,7 +496,8 @@ def rule_E2(ctx, R):
             if want and want[0] == "REL":
                 # unlock loops: plain for over the list, REL on each element
                 anyrel = any(p.ev("REL") for p in paths)
-                others = [e["def"] for p in paths for e in _calls(p) if e.get("base") not in ITER_OK]
+                others = [e["def"] for p in paths for e in _calls(p) if e.get("base") not in ITER_OK
+                          and e["def"].split("::")[-1] not in ("iter", "for_each", "deref", "into_iter")]
                 if not anyrel:
                     bad = "release op releases nothing"
                 elif others:
@@ -551,7 +551,7 @@ def rule_L2(ctx, R):
     F = ctx.F
     # (a) functions that sort a lock list
     sorters = [f for f in analysed_fns(ctx) if any(
-        t["callee"].get("def") in SORT_FNS or (t["callee"].get("def") or "").startswith("std::slice::<impl [T]>::sort")
+        "::sort" in (t["callee"].get("def") or "") and "slice" in (t["callee"].get("def") or "")
         for b in f["mir"]["blocks"] for t in [b["term"]] if t["k"] == "call" and t["callee"]["k"] == "fndef")]
     sorted_lists = {}   # fn path -> description
     for f in sorters:
@@ -564,7 +564,7 @@ def rule_L2(ctx, R):
             if p.kind != "ret":
                 continue
             sorts = [e for e in _calls(p) if "::sort" in e["def"]]
-            if len(sorts) != 1 or sorts[0]["def"] not in SORT_FNS:
+            if len(sorts) != 1 or sorts[0]["def"].split("::")[-1] not in SORT_NAMES:
                 bad = "uses %s (only an ascending sort by key is accepted)" % [e["def"] for e in sorts]
                 break
             s = sorts[0]
@@ -827,7 +827,7 @@ def rule_N3(ctx, R):
             res.undecided(f["path"], "analysis", err, *_floc(f))
         else:
             bad = None
-            okc = ("new", "into_iter", "map", "len", "with_capacity", "next", "insert")
+            okc = ("new", "into_iter", "map", "len", "with_capacity", "next", "insert", "all", "any")
             saw_true = saw_false = False
             for p in paths:
                 for e in _calls(p):
@@ -846,6 +846,27 @@ def rule_N3(ctx, R):
                         if q.kind == "ret" and not (q.value and q.value[0] == "ref" and q.value[1] == ("O", "a2", ("*",))):
                             bad = "hashed key is %r, not the thin address of the lock" % (q.value,)
                 ins = [e for e in _calls(p) if e["def"].split("::")[-1] == "insert"]
+                alls = [e for e in _calls(p) if e["def"].split("::")[-1] == "all"]
+                if alls and p.kind == "ret":
+                    # `!iter.all(|x| set.insert(x))`: the closure returns insert's verdict, the function its negation
+                    a = alls[0]
+                    cl = a["args"][1]
+                    cfn = F.fn_by_id.get(cl[2]) if cl[0] == "agg" else None
+                    cp, cerr, _ = ctx.paths(cfn) if cfn else (None, "no closure", None)
+                    okc2 = bool(cp)
+                    for q in cp or []:
+                        if q.kind == "ret":
+                            qi = [c for c in _calls(q) if c["def"].split("::")[-1] == "insert"]
+                            if len(qi) != 1 or vid(qi[0]["argv"][1]) != "op:a2" or not (q.value and q.value[0] == "op" and q.value[1] == qi[0]["result"]):
+                                okc2 = False
+                    v = p.value
+                    if not okc2:
+                        bad = "`all` predicate is not `|x| set.insert(x)`"
+                    elif not (v and v[0] == "op" and v[2] and v[2][0] == "not" and v[2][1][1] == a["result"]):
+                        bad = "result is not the negation of `all(insert)`"
+                    else:
+                        saw_true = saw_false = True
+                    continue
                 if p.kind == "ret":
                     if p.value == ("const", True):
                         saw_true = True
